@@ -78,7 +78,9 @@ def run(rep, tier, seed):
     acts = ('conn', 'finish', 'stop', 'tick')
     runs = [('S1', dict(S=1, steps=5 if q else 6, env_per_step=2, max_conns=2 if q else 3, pend_budget=1, err_budget=0, restart_pend_budget=0, actions=acts, checks=(chk_c06, chk_c07)))]
     if not q:
-        runs.append(('S2-two-stops', dict(S=2, steps=4, env_per_step=2, max_conns=2, max_stops=2, pend_budget=1, err_budget=1, actions=acts, checks=(chk_c06, chk_c07))))
+        # (no run with two Stop requests to one worker: the server sends each worker exactly one - obligation
+        # `every_worker_receives_one_stop_with_the_commands_mode` of the server-side world; a second one is outside the reachable environment)
+        runs.append(('S2', dict(S=2, steps=4, env_per_step=2, max_conns=2, pend_budget=1, err_budget=1, actions=acts, checks=(chk_c06, chk_c07))))
     # the accept thread returns when it processes Stop and drops every connection sender: `close` at any point
     runs.append(('S1-accept-exit', dict(S=1, steps=4 if q else 5, env_per_step=2, max_conns=2, pend_budget=1, err_budget=0, restart_pend_budget=0,
                                         actions=('conn', 'finish', 'stop', 'close'), checks=(chk_c06, chk_c06_exit))))
